@@ -1101,6 +1101,19 @@ func c19Xid(r *core.Run) {
 		reflective := false
 		assertedT := map[types.Type]bool{}
 		ginfo := gx.Pkg.TypesInfo
+		// (the reflective lookup may sit in a helper of the package the extractor hands the message to)
+		for _, h := range withCallees(w, gx, 2)[1:] {
+			ast.Inspect(h.Decl.Body, func(n ast.Node) bool {
+				if x, ok := n.(*ast.CallExpr); ok {
+					if sel, ok := ast.Unparen(x.Fun).(*ast.SelectorExpr); ok && sel.Sel.Name == "FieldByName" && len(x.Args) == 1 {
+						if v := core.ConstVal(h.Pkg.TypesInfo, x.Args[0]); v != nil && v.Kind() == constant.String && constant.StringVal(v) == "Xid" {
+							reflective = true
+						}
+					}
+				}
+				return true
+			})
+		}
 		ast.Inspect(gx.Decl.Body, func(n ast.Node) bool {
 			switch x := n.(type) {
 			case *ast.CallExpr:
@@ -1182,21 +1195,23 @@ func c19Xid(r *core.Run) {
 	}
 	// the reflective lookup does not produce a bogus string for messages without Xid
 	bogus := false
-	ast.Inspect(gx.Decl.Body, func(n ast.Node) bool {
-		c, ok := n.(*ast.CallExpr)
-		if !ok {
-			return true
-		}
-		// FieldByName("Xid").String() directly: an invalid Value stringifies as "<invalid Value>"
-		if sel, ok := ast.Unparen(c.Fun).(*ast.SelectorExpr); ok && sel.Sel.Name == "String" {
-			if inner, ok := ast.Unparen(sel.X).(*ast.CallExpr); ok {
-				if is, ok := ast.Unparen(inner.Fun).(*ast.SelectorExpr); ok && is.Sel.Name == "FieldByName" {
-					bogus = true
+	for _, h := range withCallees(w, gx, 2) {
+		ast.Inspect(h.Decl.Body, func(n ast.Node) bool {
+			c, ok := n.(*ast.CallExpr)
+			if !ok {
+				return true
+			}
+			// FieldByName("Xid").String() directly: an invalid Value stringifies as "<invalid Value>"
+			if sel, ok := ast.Unparen(c.Fun).(*ast.SelectorExpr); ok && sel.Sel.Name == "String" {
+				if inner, ok := ast.Unparen(sel.X).(*ast.CallExpr); ok {
+					if is, ok := ast.Unparen(inner.Fun).(*ast.SelectorExpr); ok && is.Sel.Name == "FieldByName" {
+						bogus = true
+					}
 				}
 			}
-		}
-		return true
-	})
+			return true
+		})
+	}
 	r.Sites++
 	r.Check(!bogus, "C19.xid", core.ShortKey(gx.Obj)+" reflective lookup checks the field before using it", w.Pos(gx.Decl.Pos()), "IsValid / kind checked", "FieldByName(\"Xid\").String() is used unchecked: a message without an Xid field yields the text \"<invalid Value>\" as xid")
 	// XID policy: ip:port of the xid compared with the session's remote address
